@@ -797,6 +797,13 @@ theorem C06_connpool_stores_into_private_statement :
     ∀ s ∈ Gen.connPoolStores, s.1 ∉ poolStoreInPlace →
       s.2.1 = false ∧ s.2.2 ≠ [] ∧ ∀ o ∈ s.2.2, ∃ f ∈ o, f ∈ Gen.sessionCloneGuard := by decide +kernel
 
+/-- Connection pins the connection into the statement getInstance() hands out — private whenever the receiver is a
+    handle (`C06_getInstance_returns`: fresh for clone 1 / 2) — never into the receiver's own statement and never into
+    the result of a bare Session (which shares the handle's statement) -/
+theorem C06_connection_pins_private_statement :
+    (∃ s ∈ Gen.connPoolStores, s.1 = "Connection") ∧
+    ∀ s ∈ Gen.connPoolStores, s.1 = "Connection" → s.2.1 = false ∧ s.2.2 = [["?db.getInstance()"]] := by decide +kernel
+
 /-- the shape of seed m17 — Begin's literal reduced to `{NewDB: …}` — fails the obligation -/
 theorem C06_begin_shared_statement_counterexample :
     ¬ (∀ s ∈ [("Begin", false, [["NewDB"]])], s.1 ∉ poolStoreInPlace →
